@@ -20,7 +20,7 @@ ASSUME = ["purity/totality marks of gm/gen/prog.py are correct (no print, no ass
           "a refusal (exit 10 with a message) is not a violation: the property speaks about the programs the tool produces"]
 BATCH = 1
 FLOOR = {"quick": 20, "thorough": 40}
-BUDGET = {"quick": 45, "thorough": 840}
+BUDGET = {"quick": 35, "thorough": 840}
 
 
 def gen_cases(tier, seed):
